@@ -125,7 +125,7 @@ def run(ctx):
             if not r["violated"]:
                 ctx.broken("as-built alternative %s does not violate the property in the model" % flag)
     # ---- G: schedules
-    scheds = ctx.tlc_gen(SPEC, "GenBitswapMQ.tla", "GenBitswapMQ.cfg", simulate=4 if ctx.quick else 40,
+    scheds = ctx.tlc_gen(SPEC, "GenBitswapMQ.tla", "GenBitswapMQ.cfg", simulate=4 if ctx.quick else 20,
                          depth=31 * (6 if ctx.quick else 12) + 1, timeout=1500)
     if not scheds:
         return
@@ -141,7 +141,7 @@ def run(ctx):
     ctx.sample(scheds[0])
     # ---- T: concurrent runs
     recsT, out, rc = ctx.go_run(binp, "TestVerifC35", pkg=PKG, mode="record", timeout=900,
-                                env=dict(C35_RUNS=8 if ctx.quick else 60, C35_OPS=6 if ctx.quick else 10,
+                                env=dict(C35_RUNS=8 if ctx.quick else 40, C35_OPS=6 if ctx.quick else 10,
                                          C35_CIDS=4 if ctx.quick else 10))
     if rc != 0 or not recsT:
         ctx.broken("record driver died (rc=%s): %s" % (rc, out[-1500:]))
